@@ -1,2 +1,132 @@
-(** C05.  Only statements, [exact], and Print Assumptions. *)
-From Sheens Require Import Model.Step.
+(** C05 - Walk accounting: ordered exactly-once consumption, step bound,
+    truthful stop.  Only statements, [exact], and Print Assumptions.
+
+    [walk action run s bp limit st msgs] is the model of core.Spec.Walk
+    (Model/Step.v): [action]/[run] are ANY action type and ANY deterministic
+    behaviour of actions and guards, [s] any specification (cyclic and
+    non-terminating ones included), [bp] the disjunction of the control's
+    breakpoints, [limit] the step limit.  Messages are non-null (a null
+    message is no message).  Vocabulary ([consumed_of], [chain_ok],
+    [final_state]) is in Spec/WalkSpec.v and is the same the oracle evaluates
+    on the implementation's Walked. *)
+From Sheens Require Import Model.Step Spec.WalkSpec Proofs.StepFacts Proofs.WalkProofs Proofs.WalkSplit.
+
+Section C05.
+Variable action : Type.
+Variable run : action -> option bindings -> exec_raw.
+Variable s : spec action.
+Variable bp : state -> bool.
+Notation walk := (walk action run s bp).
+Notation walk_stride := (walk_stride action run s).
+
+(** messages are consumed strictly in order, each at most once: the input is
+    the consumed messages, then the dropped ones, then the reported
+    remainder; nothing is dropped unless the walk reports completion, a
+    completed walk reports no remainder, and messages are only dropped at a
+    state that consumes no message whatever is offered *)
+Theorem C05_ordered_exactly_once :
+  forall limit st msgs w amb,
+  Forall (fun m => m <> JNull) msgs -> walk limit st msgs = (w, amb) ->
+  exists dropped,
+    msgs = consumed_of (w_strides w) ++ dropped ++ w_remaining w /\
+    (w_stopped w <> Done -> dropped = []) /\
+    (w_stopped w = Done -> w_remaining w = []) /\
+    (dropped <> [] ->
+     forall p, sd_consumed (fst (walk_stride (final_state st (w_strides w)) p)) = None).
+Proof. exact (walk_accounting action run s bp). Qed.
+
+Theorem C05_step_bound :
+  forall limit st msgs w amb,
+  Forall (fun m => m <> JNull) msgs -> walk limit st msgs = (w, amb) ->
+  List.length (w_strides w) <= limit.
+Proof. exact (walk_step_bound action run s bp). Qed.
+
+(** stopping at the limit or at a breakpoint reports exactly the unconsumed remainder *)
+Theorem C05_truthful_stop :
+  forall limit st msgs w amb,
+  Forall (fun m => m <> JNull) msgs -> walk limit st msgs = (w, amb) ->
+  w_stopped w = Limited \/ w_stopped w = BreakpointReached ->
+  msgs = consumed_of (w_strides w) ++ w_remaining w.
+Proof. exact (walk_truthful_stop action run s bp). Qed.
+
+(** completion means quiescence: from the final state no step is possible
+    without a new message *)
+Theorem C05_done_quiescent :
+  forall limit st msgs w amb,
+  Forall (fun m => m <> JNull) msgs -> walk limit st msgs = (w, amb) ->
+  w_stopped w = Done -> sd_to (fst (walk_stride (final_state st (w_strides w)) [])) = None.
+Proof. exact (walk_done_quiescent action run s bp). Qed.
+
+(** each step starts from the state the previous one produced *)
+Theorem C05_chain :
+  forall limit st msgs w amb,
+  Forall (fun m => m <> JNull) msgs -> walk limit st msgs = (w, amb) ->
+  chain_ok st (w_strides w) = true.
+Proof. exact (walk_chain action run s bp). Qed.
+
+Theorem C05_never_internal_error :
+  forall limit st msgs w amb,
+  Forall (fun m => m <> JNull) msgs -> walk limit st msgs = (w, amb) ->
+  w_stopped w <> InternalError.
+Proof. exact (walk_never_internal_error action run s bp). Qed.
+
+(** two batches: if neither the limit nor a breakpoint intervenes in the walk
+    of the first batch and in the walk of everything, then the walk of the
+    second batch from where the first ended completes too, and final state
+    and emitted messages (in order) coincide *)
+Theorem C05_split :
+  forall limit st ms1 ms2,
+  Forall (fun m => m <> JNull) ms1 -> Forall (fun m => m <> JNull) ms2 ->
+  let w1 := fst (walk limit st ms1) in
+  let w12 := fst (walk limit st (ms1 ++ ms2)) in
+  w_stopped w1 = Done -> w_stopped w12 = Done ->
+  let w2 := fst (walk limit (walked_final st w1) ms2) in
+  w_stopped w2 = Done /\
+  walked_final st w12 = walked_final (walked_final st w1) w2 /\
+  walked_emitted w12 = walked_emitted w1 ++ walked_emitted w2.
+Proof. exact (walk_split action run s bp). Qed.
+
+(** any split into consecutive batches, down to one message at a time *)
+Theorem C05_any_split :
+  forall limit rest st b fin em,
+  Forall (fun m => m <> JNull) (List.concat (b :: rest)) ->
+  let whole := fst (walk limit st (List.concat (b :: rest))) in
+  w_stopped whole = Done ->
+  walk_batches action run s bp limit st (b :: rest) = Some (fin, em) ->
+  fin = walked_final st whole /\ em = walked_emitted whole.
+Proof. exact (walk_any_split action run s bp). Qed.
+End C05.
+
+Print Assumptions C05_ordered_exactly_once.
+Print Assumptions C05_step_bound.
+Print Assumptions C05_truthful_stop.
+Print Assumptions C05_done_quiescent.
+Print Assumptions C05_chain.
+Print Assumptions C05_never_internal_error.
+Print Assumptions C05_split.
+Print Assumptions C05_any_split.
+
+(** non-vacuity: a two-node machine that consumes two messages in two
+    batches or at once (the turnstile of the README, reduced) *)
+From Sheens Require Import Model.Action.
+Definition ex_spec : aspec :=
+  mk_spec
+    [("locked", mk_node None false
+        (Some (mk_branching "message"
+                 [mk_branch (Some (JObj [("input", JStr "coin")])) None "unlocked"])));
+     ("unlocked", mk_node None false
+        (Some (mk_branching "message"
+                 [mk_branch (Some (JObj [("input", JStr "push")])) None "locked"])))]
+    false "" true.
+Definition coin := JObj [("input", JStr "coin")].
+Definition push := JObj [("input", JStr "push")].
+Example C05_nonvacuous :
+  let st := mk_state "locked" (Some []) in
+  let w12 := fst (awalk ex_spec (fun _ => false) 10 st [coin; push; coin]) in
+  let w1 := fst (awalk ex_spec (fun _ => false) 10 st [coin]) in
+  w_stopped w12 = Done /\ w_stopped w1 = Done /\
+  consumed_of (w_strides w12) = [coin; push; coin] /\
+  st_node (walked_final st w12) = "unlocked" /\
+  walk_batches act run_act ex_spec (fun _ => false) 10 st [[coin]; [push]; [coin]]
+  = Some (walked_final st w12, walked_emitted w12).
+Proof. vm_compute. repeat split; reflexivity. Qed.
